@@ -18,6 +18,7 @@ import (
 	"errors"
 	"fmt"
 	"net"
+	"runtime"
 	"sort"
 	"strconv"
 	"strings"
@@ -99,8 +100,59 @@ func tgID(b []byte) int64 {
 	return v
 }
 
-const fanWait = 250 * time.Millisecond
-const fanLong = 5 * time.Second
+const fanLong = 20 * time.Second
+
+// blockedIn counts the goroutines that are parked on a channel operation inside a function whose name
+// contains fn (read off the runtime's stack dump: exact, no timing assumption).
+var stackBuf = make([]byte, 4<<20)
+
+func blockedIn(fn string) int {
+	buf := stackBuf
+	n := runtime.Stack(buf, true)
+	cnt := 0
+	for _, g := range strings.Split(string(buf[:n]), "\n\n") {
+		i := strings.IndexByte(g, '\n')
+		if i < 0 {
+			continue
+		}
+		hdr := g[:i]
+		if strings.Contains(g[i:], fn) && (strings.Contains(hdr, "[chan receive") || strings.Contains(hdr, "[chan send") ||
+			strings.Contains(hdr, "[select")) {
+			cnt++
+		}
+	}
+	return cnt
+}
+
+// waitSender waits until the goroutine running SendReplicationMessage has either returned (result on
+// res) or is parked in its channel send.
+func waitSender(res chan string) (string, bool) {
+	// fast path: the call normally returns at once
+	select {
+	case r := <-res:
+		return r, true
+	case <-time.After(3 * time.Millisecond):
+	}
+	deadline := time.Now().Add(fanLong)
+	for time.Now().Before(deadline) {
+		select {
+		case r := <-res:
+			return r, true
+		default:
+		}
+		if blockedIn("SendReplicationMessage") > 0 {
+			// re-check the result once: the goroutine may have finished in between
+			select {
+			case r := <-res:
+				return r, true
+			default:
+			}
+			return "blocked", false
+		}
+		time.Sleep(200 * time.Microsecond)
+	}
+	return "harness:sender-timeout", false
+}
 
 type fanHarness struct {
 	rs      *replication.GRPCReplicationServer
@@ -136,18 +188,30 @@ func (h *fanHarness) open(rid int) string {
 	case <-time.After(fanLong):
 		return "harness:open-timeout"
 	}
-	// the goroutine is between getClientAddr and `<-streamChannel`: let it reach the receive
+	// the goroutine is between getClientAddr and `<-streamChannel`: wait until it is parked in the receive
+	// (every other stream goroutine of this case is parked at its receive or at its gate)
 	key := fmt.Sprintf("replica-%d:1", rid)
-	time.Sleep(2 * time.Millisecond)
-	for i := 0; i < 2000; i++ {
-		if ch, ok := h.rs.StreamChannels[key]; ok {
-			f.reg = true
-			f.capacity = cap(ch)
-			return "ok"
+	live := 0
+	for _, g := range h.fakes {
+		select {
+		case <-g.done:
+		default:
+			live++
 		}
-		time.Sleep(time.Millisecond)
 	}
-	return "harness:open-not-registered"
+	deadline := time.Now().Add(fanLong)
+	for time.Now().Before(deadline) {
+		if blockedIn("GetWALStream") >= live {
+			if ch, ok := h.rs.StreamChannels[key]; ok {
+				f.reg = true
+				f.capacity = cap(ch)
+				return "ok"
+			}
+			return "harness:open-not-registered"
+		}
+		time.Sleep(200 * time.Microsecond)
+	}
+	return "harness:open-timeout"
 }
 
 // settle: every registered replica whose goroutine is idle and whose channel is non-empty takes the
@@ -184,8 +248,11 @@ func (h *fanHarness) send() string {
 		h.rs.SendReplicationMessage(tgBytes(id))
 		res <- "ok"
 	}()
-	select {
-	case r := <-res:
+	r, finished := waitSender(res)
+	if strings.HasPrefix(r, "harness:") {
+		return r
+	}
+	if finished {
 		if r != "ok" {
 			h.mode = "dead"
 			return r
@@ -199,22 +266,21 @@ func (h *fanHarness) send() string {
 			return e
 		}
 		return "ok"
-	case <-time.After(fanWait):
-		h.pending = res
-		h.mode = "blocked"
-		// the blocking replica: the only registered one whose channel was full before this call
-		var full []int
-		for _, rid := range h.order {
-			if f := h.fakes[rid]; f.reg && f.queued >= f.capacity {
-				full = append(full, rid)
-			}
-		}
-		if len(full) != 1 {
-			return "unsupported"
-		}
-		h.blockedRid = full[0]
-		return "blocked"
 	}
+	h.pending = res
+	h.mode = "blocked"
+	// the blocking replica: the only registered one whose channel was full before this call
+	var full []int
+	for _, rid := range h.order {
+		if f := h.fakes[rid]; f.reg && f.queued >= f.capacity {
+			full = append(full, rid)
+		}
+	}
+	if len(full) != 1 {
+		return "unsupported"
+	}
+	h.blockedRid = full[0]
+	return "blocked"
 }
 
 // release lets one stream.Send of replica rid return.
@@ -241,16 +307,15 @@ func (h *fanHarness) release(rid int) string {
 		}
 		f.reg = false
 		if h.mode == "blocked" {
-			select {
-			case r := <-h.pending:
-				if strings.HasPrefix(r, "panic:") {
-					h.mode = "dead"
-					return r
-				}
-				return "unsupported"
-			case <-time.After(fanWait):
-				return "unsupported"
+			r, finished := waitSender(h.pending)
+			if finished && strings.HasPrefix(r, "panic:") {
+				h.mode = "dead"
+				return r
 			}
+			if strings.HasPrefix(r, "harness:") {
+				return r
+			}
+			return "unsupported"
 		}
 		return "closed"
 	}
@@ -265,25 +330,27 @@ func (h *fanHarness) release(rid int) string {
 		}
 	}
 	if h.mode == "blocked" {
-		select {
-		case r := <-h.pending:
-			if r != "ok" {
-				h.mode = "dead"
-				return r
-			}
-			h.mode = ""
-			for _, r2 := range h.order {
-				if g := h.fakes[r2]; g.reg {
-					g.queued++
-				}
-			}
-			if e := h.settle(); e != "" {
-				return e
-			}
-			return "ok+unblocked"
-		case <-time.After(fanWait):
+		r, finished := waitSender(h.pending)
+		if strings.HasPrefix(r, "harness:") {
+			return r
+		}
+		if !finished {
 			return "unsupported"
 		}
+		if r != "ok" {
+			h.mode = "dead"
+			return r
+		}
+		h.mode = ""
+		for _, r2 := range h.order {
+			if g := h.fakes[r2]; g.reg {
+				g.queued++
+			}
+		}
+		if e := h.settle(); e != "" {
+			return e
+		}
+		return "ok+unblocked"
 	}
 	return "ok"
 }
@@ -347,59 +414,59 @@ func (h *fanHarness) observe() string {
 	return strings.Join(parts, "|")
 }
 
-// cleanup ends every goroutine started for this case.
+// cleanup ends every goroutine started for this case, ONE stream at a time: two stream goroutines leaving
+// GetWALStream at the same moment both execute `delete(rs.StreamChannels, …)` on the unsynchronised map,
+// which the Go runtime answers with `fatal error: concurrent map writes` (observed with an earlier version
+// of this cleanup; see notes/C26.md).
 func (h *fanHarness) cleanup() {
-	for _, f := range h.fakes {
+	endOne := func(f *fakeStream) {
+		select {
+		case <-f.done:
+			return
+		default:
+		}
 		f.mu.Lock()
 		f.dead = true
 		f.mu.Unlock()
-	}
-	// open every gate for good
-	for _, f := range h.fakes {
-		go func(f *fakeStream) {
+		stop := make(chan struct{})
+		go func() { // keep the gate open and the announcements drained until the goroutine has left
 			for {
 				select {
 				case f.gate <- struct{}{}:
-				case <-f.done:
-					return
-				}
-			}
-		}(f)
-		go func(f *fakeStream) {
-			for {
-				select {
 				case <-f.arrived:
-				case <-f.done:
+				case <-f.returned:
+				case <-stop:
 					return
 				}
 			}
-		}(f)
+		}()
+		if !f.inSend && f.queued == 0 {
+			// idle in `<-streamChannel`: a nil message makes it leave the loop
+			if ch, ok := h.rs.StreamChannels[fmt.Sprintf("replica-%d:1", f.rid)]; ok {
+				select {
+				case ch <- nil:
+				case <-time.After(fanLong):
+				}
+			}
+		}
+		select {
+		case <-f.done:
+		case <-time.After(fanLong):
+		}
+		close(stop)
 	}
 	if h.mode == "blocked" {
+		// first the replica the sender is blocked on: its exit closes the channel, the pending call panics
+		if f, ok := h.fakes[h.blockedRid]; ok {
+			endOne(f)
+		}
 		select {
 		case <-h.pending:
 		case <-time.After(fanLong):
 		}
 	}
-	// idle stream goroutines leave their loop on a nil message
-	func() {
-		defer func() { recover() }()
-		d := make(chan struct{})
-		go func() {
-			defer close(d)
-			defer func() { recover() }()
-			h.rs.SendReplicationMessage(nil)
-		}()
-		select {
-		case <-d:
-		case <-time.After(fanLong):
-		}
-	}()
-	for _, f := range h.fakes {
-		select {
-		case <-f.done:
-		case <-time.After(fanLong):
-		}
+	for _, rid := range h.order {
+		endOne(h.fakes[rid])
 	}
 }
 
@@ -550,8 +617,32 @@ func fanqOp(a []string) string {
 		select {
 		case <-d:
 			sent++
-		case <-time.After(2 * fanWait):
-			blocked = 1
+			continue
+		case <-time.After(3 * time.Millisecond):
+		}
+		deadline := time.Now().Add(fanLong)
+	wait:
+		for {
+			select {
+			case <-d:
+				sent++
+				break wait
+			default:
+			}
+			// Sender.Send parked in `s.channel <- tg` while the sender goroutine is parked in its own send
+			if blockedIn("replication.(*Sender).Send") > 0 && blockedIn("SendReplicationMessage") > 0 {
+				select {
+				case <-d:
+					sent++
+				default:
+					blocked = 1
+				}
+				break wait
+			}
+			if time.Now().After(deadline) {
+				return "harness:fanq-timeout"
+			}
+			time.Sleep(200 * time.Microsecond)
 		}
 		if blocked == 1 {
 			break
